@@ -52,7 +52,8 @@ def main():
     if not confirmed:
         print(outt)
         return 1
-    rc, out = run("python3 %s/tools/try_patch.py %s" % (V, patch), V, timeout=7200)
+    # SEED_CHECKS="C14 C05": restrict the checks that are run (default: all 18)
+    rc, out = run("python3 %s/tools/try_patch.py %s %s" % (V, patch, os.environ.get("SEED_CHECKS", "")), V, timeout=7200)
     print(out)
     caught = re.search(r"CAUGHT BY: (.*)", out)
     caught = caught.group(1).split() if caught and "(none)" not in caught.group(1) else []
@@ -74,7 +75,7 @@ def main():
         "breaks_property": prop,
         "needs_to_manifest": "see notes.md",
         "origin": "independent sub-agent given only the property text and a scratch worktree",
-        "what_i_ran": ran + ["tools/try_patch.py patch.diff (all 18 quick checks, patch applied to /repo and undone afterwards)"],
+        "what_i_ran": ran + ["tools/try_patch.py patch.diff %s(patch applied to /repo and undone afterwards)" % (("checks " + os.environ["SEED_CHECKS"] + " ") if os.environ.get("SEED_CHECKS") else "(all 18 quick checks) ")],
         "caught_by": caught,
         "caught_details": details,
         "caught_by_target_property_check": prop in caught,
